@@ -226,7 +226,7 @@ OpDone ==
                               /\ Index(e.sid) = At(m.opened, k, 0), "OpenOrder") ELSE {})
             /\ m' = IF reuse
                       THEN [m1 EXCEPT !.opened = Set(@, k, Index(e.sid) + 1),
-                                      !.early = {x \in @ : ~(x[1] = c /\ Dir(x[2]) = OpDir(e.op) /\ Index(x[2]) >= Index(e.sid))},
+                                      !.early = @ \ {<<c, e.sid>>},
                                       !.wlo = Purge(@, c, e.sid), !.whi = Purge(@, c, e.sid), !.cursor = Purge(@, c, e.sid),
                                       !.stp = Purge(@, c, e.sid), !.fin = PurgeSet(@, c, e.sid), !.rst = PurgeSet(@, c, e.sid),
                                       !.rend = PurgeSet(@, c, e.sid), !.rdirty = PurgeSet(@, c, e.sid),
